@@ -2,7 +2,7 @@
 From Coq Require Extraction.
 From Coq Require Import ExtrOcamlBasic.
 From SQ Require Import lib.Base.
-From SQ Require model.HeaderProtection model.Nonce model.RxPipeline.
+From SQ Require model.HeaderProtection model.Nonce model.RxPipeline model.ResetMap.
 Extraction Language OCaml.
 
 Definition hp_run := HeaderProtection.run.
@@ -15,5 +15,7 @@ Definition rxpipe_run := RxPipeline.run.
 Definition rxpipe_judge := RxPipeline.judge.
 Definition reset_run := RxPipeline.reset_run.
 Definition reset_judge := RxPipeline.reset_judge.
+Definition resetmap_run := ResetMap.run.
+Definition resetmap_judge := ResetMap.judge.
 Extraction "../ocaml/gen/C06/model.ml" hp_run hp_judge nonce_run nonce_judge consts_run consts_judge
-  rxpipe_run rxpipe_judge reset_run reset_judge.
+  rxpipe_run rxpipe_judge reset_run reset_judge resetmap_run resetmap_judge.
